@@ -2,6 +2,7 @@ package pongo2
 
 type tagIncludeNode struct {
 	tpl               *Template
+	definedIn         *Template // the template the include tag is written in
 	filenameEvaluator IEvaluator
 	lazy              bool
 	only              bool
@@ -42,7 +43,9 @@ func (node *tagIncludeNode) Execute(ctx *ExecutionContext, writer TemplateWriter
 		}
 
 		// Get include-filename
-		includedFilename := ctx.template.set.resolveFilename(ctx.template, filename.String())
+		// Resolve relative to the template the tag is written in (which is not
+		// necessarily the template being executed, e.g. with inheritance)
+		includedFilename := ctx.template.set.resolveFilename(node.definedIn, filename.String())
 
 		includedTpl, err2 := ctx.template.set.FromFile(includedFilename)
 		if err2 != nil {
@@ -75,6 +78,7 @@ func (node *tagIncludeEmptyNode) Execute(ctx *ExecutionContext, writer TemplateW
 func tagIncludeParser(doc *Parser, start *Token, arguments *Parser) (INodeTag, *Error) {
 	includeNode := &tagIncludeNode{
 		withPairs: make(map[string]IEvaluator),
+		definedIn: doc.template,
 	}
 
 	if filenameToken := arguments.MatchType(TokenString); filenameToken != nil {
